@@ -251,7 +251,7 @@ class EffTranslator(TF.FuncTranslator):
             if self.is_erased(node.value, env):
                 return True
             if isinstance(node.value, ast.Name) and node.value.id in env and env[node.value.id].type == EXC \
-                    and node.attr in ("stdout", "stderr", "cmd", "output", "returncode"):
+                    and node.attr in ("stdout", "cmd", "output", "returncode"):
                 return True
             if self.dotted(node) == "self.subcommands":
                 return True
@@ -283,11 +283,16 @@ class EffTranslator(TF.FuncTranslator):
         return None
 
     # ---------------------------------------------------------------- effects
-    def has_effect(self, node, env):
-        """does evaluating the expression perform an effect (after its sub-expressions)?"""
+    READ_ONLY = ("errno", "excstr", "excstderr")     # observations of a caught exception: nothing happens
+
+    def has_effect(self, node, env, readonly_ok=False):
+        """does evaluating the expression perform an effect (after its sub-expressions)?
+        `readonly_ok`: observations of a caught exception do not count (inside erased calls)"""
         for n in ast.walk(node):
-            if isinstance(n, (ast.Call, ast.Attribute)) and self.effect_kind(n, env) is not None:
-                return True
+            if isinstance(n, (ast.Call, ast.Attribute)):
+                kind = self.effect_kind(n, env)
+                if kind is not None and not (readonly_ok and kind[0] in self.READ_ONLY):
+                    return True
             if isinstance(n, (ast.ListComp, ast.GeneratorExp, ast.SetComp)) and n.generators \
                     and isinstance(n.generators[0].target, ast.Tuple):
                 return True        # tuple unpacking of list items can raise ValueError
@@ -300,6 +305,8 @@ class EffTranslator(TF.FuncTranslator):
                 return ("prop", METHODS[node.attr])
             if node.attr == "errno" and self.static_is(node.value, env, EXC):
                 return ("errno",)
+            if node.attr == "stderr" and self.static_is(node.value, env, EXC):
+                return ("excstderr",)
             return None
         if not isinstance(node, ast.Call):
             return None
@@ -352,6 +359,10 @@ class EffTranslator(TF.FuncTranslator):
         if k == "errno":
             v, _ = self.expr(node.value, env)
             return "(Eff.excErrno %s)" % v, INT
+        if k == "excstderr":
+            # `ex.stderr` of a caught CalledProcessError: bytes or None (bytes are modelled as Str)
+            v, _ = self.expr(node.value, env)
+            return "(Eff.excStderr %s)" % v, OPT(STR)
         if k == "excstr":
             v, _ = self.expr(node.args[0], env)
             return "(Eff.excStr %s)" % v, STR
@@ -494,9 +505,11 @@ class EffTranslator(TF.FuncTranslator):
             if isinstance(n, ast.BoolOp):
                 vals = [go(n.values[0])]
                 for v in n.values[1:]:
-                    if eff(v):
+                    if self.has_effect(v, env2, readonly_ok=True):
                         self.bad(v, "an effect in a later operand of `and`/`or` (it would be conditional)")
-                    vals.append(v)
+                    # observations of a caught exception (`ex.stderr`, `str(ex)`, `err.errno`) change nothing and
+                    # cannot fail: reading them unconditionally is the same as reading them conditionally
+                    vals.append(go(v))
                 return ast.copy_location(ast.BoolOp(op=n.op, values=vals), n)
             if isinstance(n, ast.IfExp):
                 if eff(n.body) or eff(n.orelse):
@@ -525,7 +538,7 @@ class EffTranslator(TF.FuncTranslator):
             if isinstance(n, ast.Call):
                 if self.is_erased(n, env2):
                     for a in list(n.args) + [k.value for k in n.keywords]:
-                        if eff(a):
+                        if self.has_effect(a, env2, readonly_ok=True):
                             self.bad(n, "an effect inside the arguments of an erased call")
                     return n
                 kind = self.effect_kind(n, env2)
@@ -570,6 +583,8 @@ class EffTranslator(TF.FuncTranslator):
 
         if not self.has_effect(node, env):
             return [], node, env
+        if self.is_erased(node, env) and not self.has_effect(node, env, readonly_ok=True):
+            return [], node, env
         out = go(node)
         ast.fix_missing_locations(out)
         if not binds:
@@ -580,6 +595,23 @@ class EffTranslator(TF.FuncTranslator):
     def expr(self, node, env):
         if isinstance(node, ast.Constant) and isinstance(node.value, str):
             return lean_chars(node.value), STR
+        if isinstance(node, ast.Constant) and isinstance(node.value, bytes):
+            # bytes are modelled as Str, byte for byte (only ASCII literals occur)
+            if any(b >= 128 for b in node.value):
+                self.bad(node, "non-ASCII bytes literal")
+            return lean_chars(node.value.decode("ascii")), STR
+        if isinstance(node, ast.BoolOp) and isinstance(node.op, ast.Or) and len(node.values) == 2:
+            # `x or default` as a VALUE on (Optional) strings: x when it is truthy, else the default
+            a, ta = self.expr(node.values[0], env)
+            if ta in (STR, OPT(STR)):
+                b, tb = self.expr(node.values[1], env)
+                if tb != STR:
+                    self.bad(node, "`x or y` with x a string needs a string y (got %r)" % (tb,))
+                if ta == STR:
+                    return "(if (!%s.isEmpty) then %s else %s)" % (a, a, b), STR
+                v = self.fresh("v")
+                return "(match %s with\n  | none => %s\n  | some %s => (if (!%s.isEmpty) then %s else %s))" % (
+                    a, b, v, v, v, b), STR
         if isinstance(node, ast.Name) and node.id in env and env[node.id].type == ERASED:
             self.bad(node, "the erased value `%s` is used where a model value is needed" % node.id)
         if isinstance(node, ast.Attribute):
@@ -705,7 +737,7 @@ class EffTranslator(TF.FuncTranslator):
         if isinstance(st, ast.AnnAssign) and st.value is None:
             return True
         if isinstance(st, ast.Expr):
-            return self.is_erased(st.value, env) and not self.has_effect(st.value, env)
+            return self.is_erased(st.value, env) and not self.has_effect(st.value, env, readonly_ok=True)
         if isinstance(st, ast.Assign) and len(st.targets) == 1:
             tg = st.targets[0]
             if isinstance(tg, ast.Subscript) and self.is_erased(tg.value, env):
